@@ -8,7 +8,7 @@ import json, math, random
 from harness import modelgen as G
 from harness.props import c01
 PID = "C04"; COQ_TARGET = "C04"
-RULE = ("closed-form families (birth-death, A<->B, dimerisation, time-dependent production) with random positive parameters; random first-order networks (<= 5 species) vs expm; "
+RULE = ("closed-form families (birth-death, A<->B as two reactions and as one signed net-flux rate, dimerisation, time-dependent production) with random positive parameters; random first-order networks (<= 5 species) vs expm; "
         "random bounded non-linear networks (mass action order <= 3, Hill, general rational / exponential incl. explicit t, delayed products) vs an independent integrator; "
         "uniform and non-uniform grids from 0; non-trivial = non-linear or time-dependent or delayed")
 TRUSTED = ["scipy.integrate.solve_ivp / scipy.linalg.expm as independent references (harness)", "LSODA (scipy odeint) is outside the model"]
@@ -23,11 +23,11 @@ def gen_cases(seed, tier):
     rng = random.Random(seed * 1409 + 4); n = 90 if tier == "quick" else 1200
     cases = []
     for _ in range(n):
-        fam = rng.choice(["birthdeath", "reversible", "dimer", "timedep", "linear", "nonlinear", "nonlinear"])
+        fam = rng.choice(["birthdeath", "reversible", "netflux", "dimer", "timedep", "linear", "nonlinear", "nonlinear"])
         U = lambda a, b: round(rng.uniform(a, b), 3)
         c = {"family": fam, "times": _grid(rng)}
         if fam == "birthdeath": c.update(k=U(0.1, 5), g=U(0.1, 3), x0=U(0, 10))
-        elif fam == "reversible": c.update(a=U(0.1, 3), b=U(0.1, 3), A0=U(0, 10), B0=U(0, 10))
+        elif fam in ("reversible", "netflux"): c.update(a=U(0.1, 3), b=U(0.1, 3), A0=U(0, 10), B0=U(0, 10))
         elif fam == "dimer": c.update(k=U(0.01, 1), A0=U(0, 8))
         elif fam == "timedep": c.update(k=U(0.1, 5), a=U(0.1, 2), x0=U(0, 5))
         elif fam == "linear":
@@ -42,7 +42,7 @@ def gen_cases(seed, tier):
             c["spec"] = {"species": sp, "reactions": rx, "parameters": {}, "x0": {s: U(0, 6) for s in sp}}
         else:
             spec = G.gen_network(rng, kinds=("massaction", "massaction") + tuple(G.HILL) + ("general",), nrx=(1, 4), nsp=(1, 3), max_order=3, bounded=True, allow_delay=rng.random() < 0.3,
-                                 general_pool=["kg*%s", "kg*%s/(1+%s)", "kg*%s^2/(Kg+%s^2)", "kg*exp(-t)*%s", "kg*(1+t)/(1+%s)"])
+                                 general_pool=["kg*%s", "kg*%s/(1+%s)", "kg*%s/(Kg+%s^2)", "kg*exp(-t)*%s", "kg*(1+t)/(1+%s)"])   # at most linear growth in any species: no finite-time blow-up
             for rx in spec["reactions"]:
                 if "delay" in rx: rx["delay"]["reactants"] = []
                 # well-posed: a consumed species must switch its reaction off (mass action); Hill / general laws drive production only
@@ -61,6 +61,8 @@ def _spec_of(case):
     f = case["family"]
     if f == "birthdeath": return {"species": ["X"], "reactions": [{"reactants": [], "products": ["X"], "type": "massaction", "params": {"k": case["k"]}}, {"reactants": ["X"], "products": [], "type": "massaction", "params": {"k": case["g"]}}], "parameters": {}, "x0": {"X": case["x0"]}}
     if f == "reversible": return {"species": ["A", "B"], "reactions": [{"reactants": ["A"], "products": ["B"], "type": "massaction", "params": {"k": case["a"]}}, {"reactants": ["B"], "products": ["A"], "type": "massaction", "params": {"k": case["b"]}}], "parameters": {}, "x0": {"A": case["A0"], "B": case["B0"]}}
+    # A <-> B written as ONE reaction A -> B with the signed net flux a*A - b*B as a general rate (negative while B is in excess)
+    if f == "netflux": return {"species": ["A", "B"], "reactions": [{"reactants": ["A"], "products": ["B"], "type": "general", "params": {"rate": "ka*A - kb*B"}}], "parameters": {"ka": case["a"], "kb": case["b"]}, "x0": {"A": case["A0"], "B": case["B0"]}}
     if f == "dimer": return {"species": ["A", "B"], "reactions": [{"reactants": ["A", "A"], "products": ["B"], "type": "massaction", "params": {"k": case["k"]}}], "parameters": {}, "x0": {"A": case["A0"], "B": 0.0}}
     if f == "timedep": return {"species": ["X"], "reactions": [{"reactants": [], "products": ["X"], "type": "general", "params": {"rate": "kk*exp(-aa*t)"}}], "parameters": {"kk": case["k"], "aa": case["a"]}, "x0": {"X": case["x0"]}}
     return case["spec"]
@@ -86,7 +88,7 @@ def _reference(case, names):
     from scipy.linalg import expm
     f = case["family"]; T = case["times"]
     if f == "birthdeath": k, g, x0 = case["k"], case["g"], case["x0"]; return {"X": [k / g + (x0 - k / g) * math.exp(-g * t) for t in T]}
-    if f == "reversible":
+    if f in ("reversible", "netflux"):
         a, b, A0, B0 = case["a"], case["b"], case["A0"], case["B0"]; eq = b * (A0 + B0) / (a + b)
         A = [eq + (A0 - eq) * math.exp(-(a + b) * t) for t in T]; return {"A": A, "B": [A0 + B0 - v for v in A]}
     if f == "dimer": k, A0 = case["k"], case["A0"]; A = [A0 / (1 + 2 * k * A0 * t) for t in T]; return {"A": A, "B": [(A0 - v) / 2 for v in A]}
@@ -137,7 +139,7 @@ def oracle(case, r):
     return None
 
 def site(case, msg): return (msg or "any").split(":")[0]
-def nontrivial(case): return case["family"] in ("dimer", "timedep", "nonlinear") or any("delay" in rx for rx in _spec_of(case)["reactions"])
+def nontrivial(case): return case["family"] in ("dimer", "timedep", "nonlinear", "netflux") or any("delay" in rx for rx in _spec_of(case)["reactions"])
 def key(case): return json.dumps(case, sort_keys=True)
 def stats(cases):
     from collections import Counter
